@@ -115,7 +115,11 @@ void RecBackend::Solve() {
     if (const char *e = std::getenv("RECSOLVER_NSOL")) n = std::atoi(e);
     for (int i = 0; i < n; ++i) {
       st_.Log("{\"ev\":\"altsol\",\"i\":" + std::to_string(i) + "}");
-      ReportIntermediateSolution({{}, {}, {double(i)}});
+      if (std::getenv("RECSOLVER_NSOL_VECTORS"))     // non-empty primal/dual vectors (zeros, generously sized)
+        ReportIntermediateSolution({std::vector<double>(st_.nvars + 64, 0.0),
+                                    std::vector<double>(st_.n_lin + st_.n_quad + st_.n_other + 4096, 0.0), {double(i)}});
+      else
+        ReportIntermediateSolution({{}, {}, {double(i)}});
     }
   }
   rec_fault("solve");                                      // C09: RECSOLVER_FAULT=solve:<kind>
